@@ -18,7 +18,12 @@ LEVEL_TEXT = ("Machine-checked proof (Coq, closed under the global context) over
               "consumed), a line ends at the first newline, at size, or at EOF; for every partial-write "
               "behaviour of the stream, delivered ++ write buffer is exactly the data written, the buffer is "
               "empty after flush/close, and a line-buffered write leaves no newline in the buffer.  The model "
-              "is tied to file.py/channel.py by a differential run on random op sequences every run.")
+              "is tied to file.py/channel.py by a differential run on random op sequences every run, and its "
+              "constants (_DEFAULT_BUFSIZE, FLAG_* bits, the mode-string/bufsize table of _set_mode) by a proved "
+              "equality with tables regenerated from the source (gen/c42.py).  ChannelFile, ChannelStdinFile and "
+              "ChannelStderrFile are additionally driven over a REAL Channel with a recording stub transport: the "
+              "peer-visible byte stream after flush/close (right stream, complete, in order, EOF after the data, "
+              "packet-size bound) and the bytes read back are checked directly.")
 LEVEL_NOTE = ("Trusted: Coq kernel + vm_compute; hand-written model coq/Model/C42.v validated by the "
               "correspondence run; universal-newline ('U') and text decoding are outside the Coq model and are "
               "covered only by the implementation-level oracle on ASCII data (readline()/iteration without "
@@ -635,24 +640,30 @@ def run(ctx):
         for o in case[5]:
             ctx.dist["op-" + o[0]] = ctx.dist.get("op-" + o[0], 0) + 1
         cases.append((case, impl))
+    text_mode_oracle(ctx, rng, 150 * scale)
+    channel_files_oracle(ctx, rng, 120 * scale)
     small = [(c, i) for c, i in cases if len(c) == 8]
     bigc = [(c, i) for c, i in cases if len(c) > 8]
-    bad = ctx.model_mismatches("run_c42", "((bool * bool * bool * bool) * Z * list Z * list Z * list Z * list op)",
-                               [(coq_case(c), i) for c, i in small])
+    def safe(fn, ty, cs, **kw):
+        # the oracles are independent of the model: a model/translator failure is reported, not raised
+        try:
+            return ctx.model_mismatches(fn, ty, cs, **kw)
+        except Exception as e:      # noqa
+            ctx.corr_broken.append({"what": "model evaluation failed for " + fn, "error": str(e)[-1500:]})
+            return []
+    bad = safe("run_c42", "((bool * bool * bool * bool) * Z * list Z * list Z * list Z * list op)",
+               [(coq_case(c), i) for c, i in small])
     for i in bad[:3]:
         ctx.disagree("BufferedFile differs from the model", case=small[i][0], impl=small[i][1])
     if bigc:
-        bad = ctx.model_mismatches("run_c42_big",
-                                   "((bool * bool * bool * bool) * Z * (list Z * Z) * list Z * list Z * list op)",
-                                   [(coq_case_big(c), i) for c, i in bigc], shard=4)
+        bad = safe("run_c42_big", "((bool * bool * bool * bool) * Z * (list Z * Z) * list Z * list Z * list op)",
+                   [(coq_case_big(c), i) for c, i in bigc], shard=4)
         for i in bad[:3]:
             ctx.disagree("BufferedFile differs from the model (large stream)", case=bigc[i][0][:2],
                          impl=bigc[i][1][:50])
     ctx.sample({"case": cases[0][0], "impl": cases[0][1]})
     ctx.sample({"case": cases[1][0], "impl": cases[1][1]})
 
-    text_mode_oracle(ctx, rng, 150 * scale)
-    channel_files_oracle(ctx, rng, 120 * scale)
 
 
 def replay(ctx, rep):
